@@ -326,7 +326,7 @@ def dfs(run, name, kind, subsets, depth, mode_of, wanted_prefix):
             if not wanted_prefix(cid):
                 continue
             counter[0] += 1
-            wdir = os.path.join(run.tmp, f"{name}_{kind}_{counter[0]}")
+            wdir = os.path.join(run.tmp, re.sub(r"[^A-Za-z0-9]+", "_", f"{name}_{kind}_{counter[0]}"))
             if parent_dir is None:
                 os.makedirs(os.path.join(wdir, "t"))
             else:
@@ -392,12 +392,13 @@ def play(run, sc):
 TZS = ["UTC", "Pacific/Kiritimati", "Etc/GMT+12", "EST5EDT,M3.2.0,M11.1.0", "CET-1CEST,M3.5.0,M10.5.0/3", "Asia/Kathmandu"]
 
 
-def scenarios(run, rnd):
-    thorough = run.tier == "thorough"
+def scenarios(run, seed, thorough):
+    """every scenario draws from a generator seeded with (seed, its own name), so a case id determines its world whatever the tier"""
     out = []
     fsets = subsets_of(ALLF)
+    P = f"s{seed}/"
 
-    def rsets(n, pool=None):
+    def rsets(rnd, n, pool=None):
         return [rnd.choice(pool or fsets) for _ in range(n)]
 
     # ---- nested histories (created as steps of their own, in different orders, also after the outer history)
@@ -415,7 +416,9 @@ def scenarios(run, rnd):
     reps = 3 if thorough else 1
     for li, (tree, creation, _) in enumerate(nested_layouts):
         for rep in range(reps):
-            n = len(creation) + (5 if thorough else 4)
+            name = f"{P}nested/{tree}/{li}/{rep}"
+            rnd = random.Random(name)
+            n = len(creation) + (4 if rep == 0 else 5)
             rels = sorted(r for r in S.TREES[tree] if not r.endswith("/"))
             files = [File(r, patterns_for(n, rnd, j + li + rep), stealth=(j % 2 == 0)) for j, r in enumerate(rels)]
             # files exist from the step in which the history that owns them is created at the latest: simplest is to
@@ -424,7 +427,7 @@ def scenarios(run, rnd):
             later = ["", "", creation[0], "", creation[-2] if len(creation) > 1 else ""]
             while len(targets) < n:
                 targets.append(later[(len(targets) + rep) % len(later)])
-            seq = rsets(n)
+            seq = rsets(rnd, n)
             steps = []
             for k in range(n):
                 t = targets[k]
@@ -433,10 +436,12 @@ def scenarios(run, rnd):
                 else:
                     mode = ["abs", "sfall", "rel", "sfhalf", "dot", "n", "sfdir", "slash"][(k + li + rep) % 8]
                 steps.append({"fmts": seq[k], "mode": mode, "target": t})
-            out.append(Scenario(f"nested/{tree}/{li}/{rep}", files, steps))
+            out.append(Scenario(name, files, steps))
     # ---- unusual names, empty file, files around 1 MiB, a symbolic link
     for rep in range(3 if thorough else 1):
         n = 5
+        name = f"{P}names/{rep}"
+        rnd = random.Random(name)
         rels = sorted(S.TREES["names"])
         files = [File(r, patterns_for(n, rnd, j + rep), stealth=(j % 2 == 1)) for j, r in enumerate(rels)]
         files.append(File("z/empty.bin", "AABAB", kind="empty"))
@@ -448,12 +453,14 @@ def scenarios(run, rnd):
         files.append(File("Clips.txt", "AAABB"))
         files.append(File("Clips_proxy/y.mov", "ABBBB"))
         files.append(File("Clips/x.mov", "AABAA"))
-        seq = rsets(n)
+        seq = rsets(rnd, n)
         modes = ["abs", "sfall", "n", "sfhalf", "dot"]
-        out.append(Scenario(f"names/{rep}", files, [{"fmts": seq[k], "mode": modes[(k + rep) % 5] if k else "abs"} for k in range(n)]))
+        out.append(Scenario(name, files, [{"fmts": seq[k], "mode": modes[(k + rep) % 5] if k else "abs"} for k in range(n)]))
     # ---- long histories (>= 11 generations), failed / -n / -sf generations inside, changing time zones
     for rep in range(4 if thorough else 2):
         n = 13 if rep % 2 == 0 else 12
+        name = f"{P}long/{rep}"
+        rnd = random.Random(name)
         files = [
             File("kept.bin", "A" * n),
             File("late2_alter10.bin", "-" + "A" * 9 + "B" * (n - 10), stealth=True),  # first record in generation 2, altered from generation 11 on
@@ -465,7 +472,7 @@ def scenarios(run, rnd):
             File("d/abc.bin", "AAABBBBCCCCCAA"[:n]),
         ]
         pool = subsets_of(["md5", "sha1", "xxh64", "c4"] if rep % 2 == 0 else ["xxh3", "xxh128", "md5"])
-        seq = rsets(n, pool)
+        seq = rsets(rnd, n, pool)
         # generation 2 records every format of the pool; generation 10 checks only one format, generations 11.. check another one
         # on altered content: only a reference taken from generation <= 10 judges them correctly
         seq[1] = pool[-1]
@@ -475,7 +482,7 @@ def scenarios(run, rnd):
             seq[9:] = [["md5"], ["xxh3"], ["xxh3", "xxh128"], ["xxh128"]][: n - 9]
         modes = ["abs", "abs", "sfall", "n", "abs", "sfhalf", "abs", "sfdir", "dot", "abs", "abs", "sfall", "abs"]
         steps = [{"fmts": seq[k], "mode": modes[(k + rep) % len(modes)] if k else "abs", "tz": TZS[(k + rep) % len(TZS)]} for k in range(n)]
-        out.append(Scenario(f"long/{rep}", files, steps))
+        out.append(Scenario(name, files, steps))
     # ---- ignore patterns: a file that becomes visible (negation, -ii) is first recorded in a later generation
     ii = os.path.join(run.tmp, "ignore_spec.txt")
     with open(ii, "w") as fh:
@@ -488,10 +495,10 @@ def scenarios(run, rnd):
         File("d/sub/e.txt", "AAAAA"),
         File("keep.bin", "AAAAA"),
     ]
-    seq = rsets(n)
+    seq = rsets(random.Random(P + "ignore/0"), n)
     out.append(
         Scenario(
-            "ignore/0",
+            P + "ignore/0",
             files,
             [
                 {"fmts": seq[0], "mode": "abs", "extra": ["-i", "b.txt", "-i", "d/"], "add_patterns": ["b.txt", "d/"]},
@@ -521,11 +528,13 @@ def scenarios(run, rnd):
             else:
                 files = [File("a.bin", "A" * n), File("b.bin", "A" + "B" * (n - 1), stealth=True), File("d/c.bin", "A" * (n - 1) + "B"), File("d/r.bin", ("AB" + "A" * n)[:n])]
             for mode in ("abs", "sfall"):
-                out.append(Scenario(f"fixed/{i}/{kind}/{mode}", files, [{"fmts": s, "mode": mode} for s in seq]))
+                out.append(Scenario(f"{P}fixed/{i}/{kind}/{mode}", files, [{"fmts": s, "mode": mode} for s in seq]))
     # ---- seeded random sequences from the whole space (all 63 subsets), length 3..6
     for i in range(120 if thorough else 12):
+        name = f"{P}random/{i}"
+        rnd = random.Random(name)
         n = 3 + rnd.randrange(4)
-        seq = rsets(n)
+        seq = rsets(rnd, n)
         kind = "kept" if i % 2 == 0 else "mixed"
         if kind == "kept":
             files = [File("a.bin", "A" * n), File("d/late.bin", "-" + "A" * (n - 1)), File("d/e/late2.bin", "--" + "A" * (n - 2))]
@@ -537,7 +546,7 @@ def scenarios(run, rnd):
         for st in steps:
             if st["mode"] == "default":
                 st["fmts"] = [DEFAULT_FORMAT]
-        out.append(Scenario(f"random/{run.seed}/{i}", files, steps))
+        out.append(Scenario(name, files, steps))
     return out
 
 
@@ -560,10 +569,16 @@ def main():
         "additionally length <= 3 over 15 subsets of 4 formats, length <= 4 over 3 formats, length <= 2 over all 63 subsets, pure folder "
         "and pure -sf variants, 120 random sequences",
     )
-    rnd = random.Random(run.seed)
-    thorough = run.tier == "thorough"
+    # a case id starts with the seed it was generated under, and --case selects from the thorough enumeration, so that
+    # `--case ID` alone replays a case found with any --seed / --tier
+    seed = run.seed
+    m = re.match(r"^s(\d+)/", run.only or "")
+    if m:
+        seed = int(m.group(1))
+    P = f"s{seed}/"
+    thorough = run.tier == "thorough" or run.only is not None
     pools3 = [["md5", "xxh64", "c4"], ["sha1", "xxh3", "xxh128"], ["c4", "md5", "sha1"], ["xxh128", "xxh64", "md5"]]
-    pool = pools3[run.seed % len(pools3)]
+    pool = pools3[seed % len(pools3)]
 
     def wanted_prefix(cid):
         if run.only is None:
@@ -571,7 +586,7 @@ def main():
         return run.only == cid or run.only.startswith(cid + ">")
 
     def rot(offset):
-        return lambda s2: DFS_MODES[(sum((i + 1) * (j + 2) for j, i in enumerate(s2)) + len(s2) * 3 + offset + run.seed) % len(DFS_MODES)]
+        return lambda s2: DFS_MODES[(sum((i + 1) * (j + 2) for j, i in enumerate(s2)) + len(s2) * 3 + offset + seed) % len(DFS_MODES)]
 
     def fixed_mode(m):
         return lambda s2: m
@@ -580,7 +595,7 @@ def main():
     families = [("seq3", subsets_of(pool), 3, rot(0)), ("seq2w", wide, 2, rot(4))]
     if thorough:
         families += [
-            ("seq3b", subsets_of(pools3[(run.seed + 1) % 4]), 3, rot(5)),
+            ("seq3b", subsets_of(pools3[(seed + 1) % 4]), 3, rot(5)),
             ("seq3-folder", subsets_of(pool), 3, fixed_mode("abs")),
             ("seq3-sf", subsets_of(pool), 3, fixed_mode("sfall")),
             ("seq4", subsets_of(pool), 4, rot(3)),
@@ -589,10 +604,10 @@ def main():
         ]
     for name, subs, depth, mode_of in families:
         for kind in ("kept", "mixed"):
-            if run.only is not None and not run.only.startswith(f"{name}/{kind}/"):
+            if run.only is not None and not run.only.startswith(f"{P}{name}/{kind}/"):
                 continue
-            dfs(run, name, kind, subs, depth, mode_of, wanted_prefix)
-    for sc in scenarios(run, rnd):
+            dfs(run, P + name, kind, subs, depth, mode_of, wanted_prefix)
+    for sc in scenarios(run, seed, thorough):
         play(run, sc)
     run.finish()
 
